@@ -30,6 +30,10 @@ CONFIGS = {
     "K3": ["force-inprocess"],
     "K4": ["async"],
     "K5": ["async", "force-inprocess"],
+    # the remaining combinations of the three Linux-relevant features; analysed by the thorough tier only
+    "K6": ["memfd", "async"],
+    "K7": ["memfd", "force-inprocess"],
+    "K8": ["memfd", "async", "force-inprocess"],
 }
 
 
@@ -168,7 +172,7 @@ def _prune(fdir, keep):
 
 
 if __name__ == "__main__":
-    cfgs = sys.argv[1:] or list(CONFIGS)
+    cfgs = sys.argv[1:] or ["K1", "K2", "K3", "K4", "K5"]
     for c in cfgs:
         try:
             facts, meta = extract(c)
